@@ -161,6 +161,13 @@ pub assume_specification<'a, T: PartialEq<U>, U, A: std::alloc::Allocator>[ <&'a
 #[verifier::external_body]
 pub fn opaque_string() -> String { String::new() }
 
+/// rule R25: `v.extend(other)` with a Vec argument appends its elements in order
+pub fn vec_extend<T>(v: &mut Vec<T>, other: Vec<T>)
+    ensures final(v)@ == old(v)@ + other@
+{
+    let mut other = other;
+    v.append(&mut other);
+}
 /// rule R5: `v.drain(..)` consumed by a `for` loop: yields the old contents and leaves `v` empty
 #[verifier::external_body]
 pub fn drain_all<T>(v: &mut Vec<T>) -> (r: Vec<T>)
